@@ -58,7 +58,13 @@ fn toml_safe(fs: &[ModuleFilter]) -> bool {
 }
 /// the specification a string stands for as a value: parsed, or carried by the parse error
 fn spec_of(s: &str) -> (bool, LogSpecification) {
-    match LogSpecification::parse(s) {
+    // parse() and the two TryFrom impls are the same function
+    let r = match s.len() % 3 {
+        0 => LogSpecification::parse(s),
+        1 => LogSpecification::try_from(s),
+        _ => LogSpecification::try_from(&s.to_string()),
+    };
+    match r {
         Ok(sp) => (true, sp),
         Err(FlexiLoggerError::Parse(_, sp)) => (false, sp),
         Err(_) => (false, LogSpecification::off()),
@@ -119,10 +125,26 @@ pub fn run_specb(toks: &[&str]) -> String {
             "R" => {
                 b.remove(ustr(&unhex(p[1])));
             }
+            "F" => {
+                let (_, sp) = spec_of(&ustr(&unhex(p[1])));
+                b = LogSpecBuilder::from_module_filters(sp.module_filters());
+            }
+            "I" => {
+                let (_, sp) = spec_of(&ustr(&unhex(p[1])));
+                b.insert_modules_from(sp);
+            }
+            "V" => {
+                b = LogSpecBuilder::from_module_filters(LogSpecification::from(lvl_of(p[1].parse().unwrap())).module_filters());
+            }
             _ => panic!("bop"),
         }
     }
-    let sp = b.build();
+    // the three ways to get the specification out of the builder
+    let sp = match toks.len() % 3 {
+        0 => b.build(),
+        1 => b.build_with_textfilter(None),
+        _ => b.finalize(),
+    };
     observe(true, &sp, true)
 }
 
